@@ -38,6 +38,14 @@ WHY = [
     ("C19.returned_table_bytes_not_printed", "bloc FILE prints nothing for a returned table / bytes / object: what to print is a design decision"),
     ("C19.interactive_continues_after_return", "interactive mode deliberately (bloc_reset_stop) keeps reading after a top-level return; batch stops: documented difference rather than a slip?"),
     ("C19.interactive_function_redefinition", "consequence of compiling statement by statement: a later redefinition cannot affect statements already run"),
+    ("C02.safety_table_major_changes", "the property and the manual ('the type of the stored value cannot change') ask that a `$` variable keeps its type, but Symbol::check_safety accepts any table for a table symbol; proved as safety_table_major_fails next to what does hold (safety_preserves_major_partial: a table stays a table); found by a task that had /repo read-only, no patch proposed"),
+    ("C02.stepwise_dead_branch_typed_from_value", "second sentence of C02 and the counter-example of DESIGN §1: statement by statement a symbol carries the type of the value stored meanwhile, so a never-executed statement with an opaque operand compiles as one unit only; proved as stepwise_eq_batch_fails next to stepwise_eq_batch_partial (where the two compiles agree), 42 generated variants per run agree between library and model; no patch proposed"),
+    ("C05.dangling_element_reference", "memory-unsafe and reachable from plain scripts, but the pattern (a reference into a container held while a later operand is evaluated) sits in every member, binary operator and multi-argument built-in: the repair proposed in notes/NOTES-C05.md reorders argument and receiver evaluation and adds a per-context in-place epoch, i.e. changes the observable evaluation order — larger than a local patch; the model answers `hazard oob` (dangling_witness) and the check tolerates a non-manifesting run"),
+    ("C10.num.subnormal.erange", "the property demands num(str(d)) = d up to the printed precision for all doubles, but std::stod throws whenever glibc strtod sets ERANGE (every subnormal, the smallest normal, %.16g of DBL_MAX); proved as num_str_subnormal_fails and confirmed by the numstr stream on every run; no patch proposed (the literal reader goes through the same std::stod)"),
+    ("C16.deinit_reassigns_type_ids", "needs a host that calls bloc_deinit_plugins mid-session (the header says it 'should be called on program exit') and keeps executables compiled before it; not reachable from scripts, outside C16's host alphabet (the model's nodes carry module names, the C++ numeric type ids)"),
+    ("C17.deinit_with_live_objects_null_call", "same host call as C16.deinit_reassigns_type_ids: bloc_deinit_plugins while a context still holds an object (the header says 'should be called on program exit'); not reachable from scripts; modelled on C17's layer M (deinit_after_release_safe + witnesses of the null call)"),
+    ("C18.utf8_reserve_unchecked", "C18 requires every module method to tolerate any argument, the plugin checks reserve(n) only for null; the local patch proposed with the entry (range check, catch std::bad_alloc) was applied to /repo as 2b1dab4 — the entry turns `fixed` when the C18 model (utf8_methods_total) follows"),
+    ("C18.csv_next_null_last_element", "C18 requires every module method to tolerate null elements, deserialize_next dereferenced a null last element; the local patch proposed with the entry (null element = empty value, as the serializers do) was applied to /repo as ad063b9 — the entry turns `fixed` when the C18 model (csv_plugin_args_total) follows"),
 ]
 
 
@@ -84,7 +92,7 @@ def gen_seeds():
     p = os.path.join(HERE, "seeded", "SWEEP.md")
     rows = []
     for l in open(p):
-        m = re.match(r"^\| (C\d\d-m\d) \| (C\d\d) \| (\w+) \| ([^|]+) \|", l)
+        m = re.match(r"^\| (C\d\d-m\d+) \| (C\d\d) \| (\w+) \| ([^|]+) \|", l)
         if m:
             rows.append(m.groups())
     rows.sort()
@@ -92,7 +100,8 @@ def gen_seeds():
     for name, prop, applies, res in rows:
         d = os.path.join(HERE, "seeded", name)
         files = " ".join(sorted(set(re.findall(r"^\+\+\+ b/(\S+)", open(os.path.join(d, "patch.diff")).read(), flags=re.M))))
-        title = open(os.path.join(d, "README.md")).readline().strip().lstrip("# ")
+        rd = os.path.join(d, "README.md")
+        title = open(rd).readline().strip().lstrip("# ") if os.path.exists(rd) else "(patch only; see meta.json)"
         title = re.sub(r"^C\d\d\s*/\s*m\d\s*[—-]+\s*", "", title)
         out.append("| %s | %s | %s | %s |" % (name, files, title.replace("|", "/"), res.strip() if applies == "yes" else "patch no longer applies"))
     return "\n".join(out)
